@@ -578,6 +578,63 @@ func TestC12(t *testing.T) {
 	for _, n := range names {
 		nameSet[n] = true
 	}
+	// enumerated: every listed name under every other severity prefix, without one, with the prefix in capitals, with
+	// '-' for '_' and with one inner letter changed is not a name (unless listed itself); a name that is found is
+	// found as itself
+	for _, n := range names {
+		var qs []string
+		if len(n) > 2 && n[1] == '_' {
+			for _, pfx := range []string{"e_", "w_", "n_", "", "E_", "W_", "i_", "f_"} {
+				qs = append(qs, pfx+n[2:])
+			}
+			qs = append(qs, n[:1]+"-"+n[2:], strings.Replace(n, "_", "-", -1), strings.Replace(n[2:], "_", "__", 1), n+"_", n[:len(n)-1]+string(n[len(n)-1]^1))
+			mid := 2 + (len(n)-2)/2
+			qs = append(qs, n[:mid]+string(n[mid]^2)+n[mid+1:])
+		}
+		qs = append(qs, n)
+		for _, q := range qs {
+			rec.Eval()
+			rec.Class("sibling_lookup")
+			var found []string
+			if l := g.CertificateLints().ByName(q); l != nil {
+				found = append(found, l.Name)
+			}
+			if l := g.RevocationListLints().ByName(q); l != nil {
+				found = append(found, l.Name)
+			}
+			if l := g.OcspResponseLints().ByName(q); l != nil {
+				found = append(found, l.Name)
+			}
+			if l := g.ByName(q); l != nil {
+				found = append(found, l.Name)
+				if !nameSet[q] {
+					found = append(found, "(deprecated Registry.ByName)")
+				}
+			}
+			ok := true
+			if nameSet[q] {
+				ok = len(found) >= 1
+				for _, f := range found {
+					ok = ok && f == q
+				}
+			} else {
+				ok = len(found) == 0
+			}
+			if !ok {
+				if rec.Report("c12-lookup", "lookup|sibling", fmt.Sprintf("ByName(%q) (listed: %v) answers with %q", q, nameSet[q], found), c12Case{"lookup", q}) {
+					t.Errorf("c12: ByName(%q), listed=%v, answers %q", q, nameSet[q], found)
+				}
+			}
+			if !nameSet[q] {
+				if _, err := g.Filter(lint.FilterOptions{IncludeNames: []string{q}}); err == nil {
+					if rec.Report("c12-lookup", "filter|sibling", fmt.Sprintf("Filter accepts the include name %q, which is not listed", q), c12Case{"filter", q}) {
+						t.Errorf("c12: Filter accepts the unlisted name %q", q)
+					}
+				}
+				rec.NT(stats.HashS("miss", q))
+			}
+		}
+	}
 	rapidRun(t, "lookups", perShard(stats.Scale(3000, 60000)), func(rt *rapid.T) {
 		rec.Eval()
 		base := rapid.SampledFrom(names).Draw(rt, "base")
